@@ -45,7 +45,8 @@ let register () =
                    ob_play_ok = (playok = "1") } in
         (match NetRtspCmd.run_cmd Drv_c13.fx NetRtspCmd.uri_ok_k ob (ws = "1") (bytes_of_token b) with
          | Res.Ok (st, evs) ->
-           Printf.sprintf "ok %s %s leak:%d" (if evs = [] then "-" else String.concat ";" (Stdlib.List.map show_cev evs)) (show_state st)
+           let show e = (if NetRtspCmd.resp_framed (ws = "1") e then "w" else "") ^ show_cev e in
+           Printf.sprintf "ok %s %s leak:%d" (if evs = [] then "-" else String.concat ";" (Stdlib.List.map show evs)) (show_state st)
              (2 * int_of_n st.NetRtspCmd.cs_leak)
          | Res.Err _ -> "err-fuel"
          | Res.Panic s -> panic s)
